@@ -6,7 +6,7 @@ package relayer
 // InitGenesis establishes the STORED part of the group invariant used by (Keeper).EndBlocker: the four singletons
 // exist afterwards (a rejected genesis panics = no post-state), the stored relayer record is the genesis one, and
 // the queue it builds is non-nil. What it checks / does not check w.r.t. the rest of the invariant is analysed in
-// /var/tmp/ag_rel/NOTES.md section 4 (findings G1-G3).
+// /verif/notes_ag_rel.md section 4 (findings G1-G3).
 //@ func InitGenesis
 //@ property C16 C18 C01 C02
 //@ ensures stored: has(st.relayer.Relayer) && has(st.relayer.Params) && has(st.relayer.Queue) && has(st.relayer.Randao)
